@@ -8,17 +8,22 @@ Model: `DclabModel/Model/Hier.lean` (chains `[L_d, …, L_1, L_0]`, youngest fir
    `parent2child_child2parent`, `child2parent_parent2child`, `child2root_is_composition`,
    `root2child_child2root`, `child2parent_order`, `parent2child_order`,
    `child2root_reads_root_ids`, `root2child_finds_positions`, `nd_feature_is_selection`.
-2. `view_after_rejuvenate` (+ `view_after_applyFilter`, `synced_after_history`): after a refresh
-   from the youngest member every member is `sel (all parent) (events parent)` and has
-   `count (all parent)` events — every history, any depth, both comparison rules.
-3. `manual_attached_to_events`: with the repaired `parent_changed`, in every history and at every
-   member, the root ids excluded by the user (and not re-included) that are visible are excluded,
-   and only root ids the user ever excluded are excluded (O1: upper bound is `Ever`).
-   `stale_manual_witness`: with the comparison used before F04 the statement is false.
-4. `filter_fresh_after_rejuvenate`: after a refresh every `filter.all` is the configured ranges
-   on the member's *current* events and `manual` (`stale_box_witness` for the old rule).
-5. `intermediate_refresh_witness` (open finding F32): a refresh of an intermediate member, which
-   is not part of the histories of 2–4, can lose a pending manual exclusion of a deeper member.
+Histories: range edits at any member, manual edits at any member, `rejuvenate()` of the youngest
+member, **and `rejuvenate()` of any intermediate member** (what `set_temporary_feature` on that
+member does), in any interleaving, any depth.
+
+2. `view_after_rejuvenate` (+ `view_after_applyFilter`, `synced_after_rejuvenate`): after a
+   refresh from the youngest member every member is `sel (all parent) (events parent)` and has
+   `count (all parent)` events — every history, any depth, all code variants.
+3. `manual_attached_to_events`: with the repaired code (F04 + F32), in every history and at
+   every member, the excluded root ids are exactly the ones the user excluded (and did not
+   re-include) that are visible — also for events that vanish and return (O1 of DESIGN.md, the
+   return of re-included exclusions, disappeared with the F32 repair).
+   `stale_manual_witness`: false for the `parent_changed` before F04;
+   `intermediate_refresh_witness`: false for the `retrieve_manual_indices` before F32.
+4. `filter_fresh_after_rejuvenate`: after a refresh from the youngest member every `filter.all`
+   is the configured ranges on the member's *current* events and `manual`
+   (`stale_box_witness` for the old comparison).
 -/
 namespace DclabModel.C04
 open DclabModel.Hier
@@ -88,63 +93,51 @@ theorem refresh_view (fixed : Bool) (D : Data) (c : Level) (ps : List Level) :
   simp only [refresh]
   split <;> exact ⟨rfl, rfl⟩
 
-/-- whatever the state before: after `apply_filter` of the youngest member the whole chain is a
-chain of views (both comparison rules; induction over the depth) -/
-theorem view_after_applyFilter (fixed : Bool) (D : Data) :
-    ∀ s : List Level, ViewOK (applyFilter fixed D s)
+/-- whatever the state before (any partial refreshes, any pending edits): after `apply_filter`
+of the youngest member the whole chain is a chain of views (all code variants; induction over
+the depth) -/
+theorem view_after_applyFilter (fixed snap : Bool) (D : Data) :
+    ∀ s : List Level, ViewOK (applyFilter fixed snap D s)
   | [] => trivial
   | [r] => trivial
   | c :: p :: rest => by
-    have ih := view_after_applyFilter fixed D (p :: rest)
+    have ih := view_after_applyFilter fixed snap D (p :: rest)
     simp only [applyFilter]
-    cases hq : applyFilter fixed D (p :: rest) with
+    cases hq : applyFilter fixed snap D (p :: rest) with
     | nil => trivial
     | cons q qs =>
       rw [hq] at ih
       exact ⟨(refresh_view fixed D _ (q :: qs)).1, (refresh_view fixed D _ (q :: qs)).2, ih⟩
 
-theorem view_after_rejuvenate (fixed : Bool) (D : Data) (d : Nat) (h : List Op) :
-    ViewOK (run fixed D (initChain fixed D d) (h ++ [Op.rejuv])) := by
+theorem view_after_rejuvenate (fixed snap : Bool) (D : Data) (d : Nat) (h : List Op) :
+    ViewOK (run fixed snap D (initChain fixed snap D d) (h ++ [Op.rejuv])) := by
   simp only [run, List.foldl_append, List.foldl_cons, List.foldl_nil, step]
-  exact view_after_applyFilter fixed D _
+  exact view_after_applyFilter fixed snap D _
 
-/-! ### the history invariant (repaired comparison) -/
+/-! ### the history invariant (repaired code) -/
 
-def Inv (D : Data) (s : List Level) : Prop := s ≠ [] ∧ Synced true D s ∧ ∀ c ∈ s, LI D c
-
-theorem modAt_ne_nil (k : Nat) (f : Level → Level) : ∀ s, s ≠ [] → modAt k f s ≠ []
-  | [], h => absurd rfl h
-  | c :: s, _ => by cases k <;> simp [modAt]
-
-theorem inv_step (D : Data) (s : List Level) (op : Op) (h : Inv D s) : Inv D (step true D s op) := by
-  obtain ⟨hne, hs, hl⟩ := h
+theorem inv_step (D : Data) (s : List Level) (op : Op) (h : GInv D s) :
+    GInv D (step true true D s op) := by
   cases op with
   | setRange k f lo hi =>
-    refine ⟨modAt_ne_nil _ _ _ hne,
-      synced_modAt (fun c => { c with cfg := c.cfg.set f (some (lo, hi)) })
-        (fun c => ⟨rfl, rfl, rfl, rfl, rfl⟩) k s hs, ?_⟩
-    apply forall_modAt (fun c => { c with cfg := c.cfg.set f (some (lo, hi)) }) k s hl
-    intro c _ hc
+    apply ginv_modAt (fun c => { c with cfg := c.cfg.set f (some (lo, hi)) })
+      (fun c => ⟨rfl, rfl, rfl, rfl, rfl, rfl⟩) _ k s h
+    intro c _ _ hc
     obtain ⟨g2, g4, hb1, hb2⟩ := hc
     exact ⟨g2, g4, by simpa using hb1, fun f hf => hb2 f (by simpa using hf)⟩
   | manual k p b =>
-    refine ⟨modAt_ne_nil _ _ _ hne, synced_modAt _ (shape_manualEdit p b) k s hs, ?_⟩
-    apply forall_modAt _ k s hl
-    intro c hc hli
-    exact li_manualEdit p b c hli (synced_mem s hs c hc).2.1
-  | rejuv =>
-    exact ⟨applyFilter_ne_nil true D s hne, synced_applyFilter s (pre_of_synced s hs),
-      fun c hc => (inv_applyFilter s hs hl c hc).1⟩
+    exact ginv_modAt (manualEdit p b) (shape_manualEdit p b)
+      (fun c hl hpw hli => li_manualEdit p b c hli hl hpw) k s h
+  | rejuv => exact (ginv_applyFilter s h).1
+  | rejuvAt k => exact ginv_rejuvAt k s h
 
-theorem inv_run (D : Data) : ∀ (h : List Op) (s : List Level), Inv D s → Inv D (run true D s h)
+theorem inv_run (D : Data) : ∀ (h : List Op) (s : List Level), GInv D s →
+    GInv D (run true true D s h)
   | [], _, hs => hs
   | op :: h, s, hs => inv_run D h _ (inv_step D s op hs)
 
-theorem inv_root (D : Data) : Inv D [rootLevel D] := by
-  refine ⟨by simp, ⟨rfl, rfl, by simp [rootLevel], by simp [rootLevel]⟩, ?_⟩
-  intro c hc
-  simp only [List.mem_singleton] at hc
-  subst hc
+theorem inv_root (D : Data) : GInv D [rootLevel D] := by
+  refine ⟨⟨rfl, rfl, by simp [rootLevel]⟩, ?_⟩
   have hnil : ∀ r, r ∉ excl (rootLevel D) :=
     excl_eq_nil_of_all (by simp [rootLevel]) (by simp [rootLevel])
   refine ⟨⟨fun r hr => by simp [rootLevel, freshLevel] at hr, fun r hr => absurd hr (hnil r)⟩,
@@ -155,65 +148,49 @@ theorem inv_root (D : Data) : Inv D [rootLevel D] := by
     have hf' : f < D.feats.length := by simpa [rootLevel, freshLevel] using hf
     simp [rootLevel, freshLevel, List.getD_eq_getElem?_getD, hf', boxOf_none]
 
-theorem inv_addChild (D : Data) (s : List Level) (h : Inv D s) : Inv D (addChild true D s) := by
-  obtain ⟨hne, hs, hl⟩ := h
-  cases s with
-  | nil => exact absurd rfl hne
-  | cons p rest =>
-    have hpre : Pre D (freshLevel D.feats.length :: p :: rest) :=
-      ⟨fun a t h => by simp [freshLevel] at h, pre_of_synced _ hs⟩
-    refine ⟨applyFilter_ne_nil true D _ (by simp), synced_applyFilter _ hpre, ?_⟩
-    have hps := synced_applyFilter (fixed := true) (p :: rest) (pre_of_synced _ hs)
-    have ih := inv_applyFilter (p :: rest) hs hl
-    simp only [addChild, applyFilter]
-    cases hq : applyFilter true D (p :: rest) with
-    | nil => exact absurd hq (applyFilter_ne_nil true D _ (by simp))
-    | cons q qs =>
-      rw [hq] at ih hps
-      have hret : retrieve true (freshLevel D.feats.length) (p :: rest)
-          = freshLevel D.feats.length := by
-        simp [retrieve, key, freshLevel]
-      rw [hret]
-      intro c hc
-      rcases List.mem_cons.1 hc with rfl | hc
-      · refine (refresh_level (freshLevel D.feats.length) q qs hps ?_ ?_ ?_ ?_).1
-        · intro r hr; simp [freshLevel] at hr
-        · intro r hr; simp [freshLevel] at hr
-        · intro hk; simp [key, freshLevel] at hk
-        · refine ⟨by simp [freshLevel], fun f _ => ?_⟩
-          simp [freshLevel, boxOf]
-      · exact (ih c hc).1
+/-- `RTDC_Hierarchy(parent)`: a member without filter object satisfies the invariants trivially;
+its constructor then refreshes the chain -/
+theorem inv_addChild (D : Data) (s : List Level) (h : GInv D s) :
+    GInv D (addChild true true D s) := by
+  apply (ginv_applyFilter _ (ginv_cons ?_ ?_ h)).1
+  · exact ⟨fun a t hk => by simp [freshLevel] at hk, rfl, rfl, rfl, List.Pairwise.nil⟩
+  · refine ⟨⟨fun r hr => by simp [freshLevel] at hr, fun r hr => by simp [excl, freshLevel, sel] at hr⟩,
+      ⟨fun r hr => by simp [freshLevel] at hr, fun r hr => by simp [freshLevel] at hr⟩,
+      by simp [freshLevel], fun f _ => by simp [freshLevel, boxOf]⟩
 
-theorem inv_init (D : Data) : ∀ d, Inv D (initChain true D d)
+theorem inv_init (D : Data) : ∀ d, GInv D (initChain true true D d)
   | 0 => inv_root D
   | d + 1 => inv_addChild D _ (inv_init D d)
 
-/-- theorem 2, strong form for the repaired code: at every moment of every history the chain is
-synchronised (views, lengths of `manual`/`all`, stored parent hashes) -/
-theorem synced_after_history (D : Data) (d : Nat) (h : List Op) :
-    Synced true D (run true D (initChain true D d) h) :=
-  (inv_run D h _ (inv_init D d)).2.1
+/-- theorem 2, strong form for the repaired code: after a refresh from the youngest member the
+chain is synchronised (views, sizes of `manual`/`all`, stored parent hashes), whatever partial
+refreshes and edits preceded it -/
+theorem synced_after_rejuvenate (D : Data) (d : Nat) (h : List Op) :
+    Synced true D (run true true D (initChain true true D d) (h ++ [Op.rejuv])) := by
+  simp only [run, List.foldl_append, List.foldl_cons, List.foldl_nil, step]
+  exact synced_applyFilter _ (pre_of_ginv _ (inv_run D h _ (inv_init D d)))
 
 /-! ## 3. manual exclusions are attached to events -/
 
-/-- lower bound `M ∩ vis ⊆ excluded`, upper bound `excluded ⊆ Ever ∩ vis`, at every member -/
+/-- `excluded = M ∩ vis` at every member: what the user excluded (and did not re-include) and
+can see is excluded, and nothing else (`vis` = the member's events as of its own last refresh) -/
 def ManualOK (s : List Level) : Prop :=
-  ∀ c ∈ s, (∀ r ∈ c.gM, r ∈ c.ev → r ∈ excl c) ∧ (∀ r ∈ excl c, r ∈ c.gEver ∧ r ∈ c.ev)
+  ∀ c ∈ s, (∀ r ∈ c.gM, r ∈ c.ev → r ∈ excl c) ∧ (∀ r ∈ excl c, r ∈ c.gM ∧ r ∈ c.ev)
 
 instance (s : List Level) : Decidable (ManualOK s) := by unfold ManualOK; infer_instance
 
 theorem manual_attached_to_events (D : Data) (d : Nat) (h : List Op) :
-    ManualOK (run true D (initChain true D d) h) := by
-  obtain ⟨_, _, hl⟩ := inv_run D h _ (inv_init D d)
+    ManualOK (run true true D (initChain true true D d) h) := by
+  have hg := inv_run D h _ (inv_init D d)
   intro c hc
-  obtain ⟨⟨g1, g2⟩, _, _⟩ := hl c hc
+  obtain ⟨⟨⟨g1, g2⟩, _, _⟩, _, _⟩ := ginv_mem _ hg c hc
   exact ⟨g1, fun r hr => ⟨g2 r hr, (sel_sublist _ _).subset hr⟩⟩
 
-/-- the bookkeeping of the user's intent (`gM`, `gEver`) that the statement above refers to is
+/-- the bookkeeping of the user's intent (`gM`) that the statement above refers to is
 never read by the modelled code: erasing it commutes with `apply_filter` -/
-theorem ghost_fields_never_read (fixed : Bool) (D : Data) (s : List Level) :
-    applyFilter fixed D (s.map erase) = (applyFilter fixed D s).map erase :=
-  applyFilter_erase fixed D s
+theorem ghost_fields_never_read (fixed snap : Bool) (D : Data) (s : List Level) :
+    applyFilter fixed snap D (s.map erase) = (applyFilter fixed snap D s).map erase :=
+  applyFilter_erase fixed snap D s
 
 /-! ## 4. the filter of every member is the configured one on its current events -/
 
@@ -223,11 +200,9 @@ instance (D : Data) (s : List Level) : Decidable (FreshOK D s) := by
   unfold FreshOK; infer_instance
 
 theorem filter_fresh_after_rejuvenate (D : Data) (d : Nat) (h : List Op) :
-    FreshOK D (run true D (initChain true D d) (h ++ [Op.rejuv])) := by
+    FreshOK D (run true true D (initChain true true D d) (h ++ [Op.rejuv])) := by
   simp only [run, List.foldl_append, List.foldl_cons, List.foldl_nil, step]
-  obtain ⟨_, hs, hl⟩ := inv_run D h _ (inv_init D d)
-  intro c hc
-  exact (inv_applyFilter _ hs hl c hc).2
+  exact (ginv_applyFilter _ (inv_run D h _ (inv_init D d))).2
 
 /-! ## F04: the comparison used before the repair -/
 
@@ -244,40 +219,46 @@ def h0 : List Op :=
 
 /-- F04: with `parent_changed` comparing only the parent's boolean pattern, the exclusion of root
 event 7 is lost and root event 8 is excluded instead -/
-theorem stale_manual_witness : ¬ ManualOK (run false D0 (initChain false D0 3) h0) := by
+theorem stale_manual_witness : ¬ ManualOK (run false false D0 (initChain false false D0 3) h0) := by
   decide +kernel
 
 /-- F04, second symptom: the box filter of L2 still belongs to the previous events -/
-theorem stale_box_witness : ¬ FreshOK D0 (run false D0 (initChain false D0 3) h0) := by
+theorem stale_box_witness : ¬ FreshOK D0 (run false false D0 (initChain false false D0 3) h0) := by
   decide +kernel
 
-/-- non-vacuity: on the same history the repaired rule keeps root event 7 excluded at L3, whose
+/-- non-vacuity: on the same history the repaired code keeps root event 7 excluded at L3, whose
 events are now root events 7 and 10 -/
-example : ((run true D0 (initChain true D0 3) h0).head?.map
+example : ((run true true D0 (initChain true true D0 3) h0).head?.map
     (fun c => (c.ev, excl c, c.gM, c.manRoot))) = some ([7, 10], [7], [7], [7]) := by
   decide +kernel
 
-example : ManualOK (run true D0 (initChain true D0 3) h0) ∧
-    FreshOK D0 (run true D0 (initChain true D0 3) h0) := by decide +kernel
+example : ManualOK (run true true D0 (initChain true true D0 3) h0) ∧
+    FreshOK D0 (run true true D0 (initChain true true D0 3) h0) := by decide +kernel
 
 /-- the old rule on the same history: L3 shows root events 7, 8 and excludes 8 -/
-example : ((run false D0 (initChain false D0 3) h0).head?.map
+example : ((run false false D0 (initChain false false D0 3) h0).head?.map
     (fun c => (c.ev, excl c, c.gM))) = some ([7, 8], [8], [7]) := by
   decide +kernel
 
-/-! ## open finding F32: refreshing an intermediate member
+/-! ## F32: `retrieve_manual_indices` before the repair
 
-The histories above refresh from the youngest member. `set_temporary_feature` on an
-*intermediate* member (or a direct `rejuvenate()` there) refreshes only the chain above it; if a
-deeper member holds a manual edit that has not been retrieved yet, its `retrieve_manual_indices`
-later takes the "parent changed: ignore" branch and the edit is lost (before and after the F04
-repair). `view_after_applyFilter` still applies (it holds from any state). -/
+Before F32 the manual array was mapped to root indices through the *current* filter arrays of
+all ancestors, and the retrieval was skipped when the parent had changed. After a refresh of an
+intermediate member, a deeper member that holds a manual edit made since its own last refresh
+takes the "parent changed: ignore" branch and the edit is lost. -/
 
 /-- depth 2 (positions 0 = L2, 1 = L1, 2 = root): exclude event 5 at L2, root window 2..7,
-refresh L1 only, then refresh from L2: root event 5 is visible at L2 and no longer excluded -/
+refresh L1 only (`set_temporary_feature(L1, …)`), then refresh from L2 -/
+def h1 : List Op := [.manual 0 5 false, .setRange 2 0 2 7, .rejuvAt 1, .rejuv]
+
+/-- F32: with the F04 repair alone, root event 5 is visible at L2 and no longer excluded -/
 theorem intermediate_refresh_witness :
-    ¬ ManualOK (applyFilter true D0 (rejuvAt true D0 1
-        (run true D0 (initChain true D0 2) [.manual 0 5 false, .setRange 2 0 2 7]))) := by
+    ¬ ManualOK (run true false D0 (initChain true false D0 2) h1) := by
+  decide +kernel
+
+/-- non-vacuity: the repaired code keeps root event 5 excluded (L2 shows root events 2..7) -/
+example : ((run true true D0 (initChain true true D0 2) h1).head?.map
+    (fun c => (c.ev, excl c, c.gM))) = some ([2, 3, 4, 5, 6, 7], [5], [5]) := by
   decide +kernel
 
 end DclabModel.C04
